@@ -149,6 +149,9 @@ def model_check(work, module, cfg, workers=NCPU, timeout=900, env_extra=None, he
     return res
 
 
+# distinct (operation, aliasing pattern of receiver/arguments, outcome) classes seen in validated traces, per check label
+TRANSITION_CLASSES = {}
+
 VFAIL = re.compile(r'^"VFAIL (.*)"$')
 VSTATS = re.compile(r'^"VSTATS (.*)"$')
 VDONE = re.compile(r'^"VDONE (.*)"$')
@@ -229,6 +232,19 @@ def validate_programs(work, driver, progs, label, chunks=None, cfg="TraceApi.cfg
     byid = {p["id"]: p for p in progs}
     fails = []
     tot = {"programs": len(progs), "events": 0, "conjuncts": 0, "states": 0, "transitions": 0, "traces": len(traces)}
+    classes = TRANSITION_CLASSES.setdefault(label.split("-")[0], set())
+    for t in traces:
+        for line in open(t):
+            if '"op":"Reset"' in line[:80]:
+                continue
+            try:
+                ev = json.loads(line)
+            except ValueError:
+                continue
+            pos = [ev.get("recv", "")] + list(ev.get("args", [])) + list(ev.get("ss", [])) + list(ev.get("ps", []))
+            names = {}
+            sig = tuple(names.setdefault(n, len(names)) if n else -1 for n in pos)
+            classes.add((ev["op"], sig, "panic" if ev.get("panic") else ("err" if ev.get("err") else "ok")))
     with cf.ThreadPoolExecutor(max_workers=min(NCPU, len(traces))) as ex:
         futs = [ex.submit(validate_trace, work, t, cfg, module) for t in traces]
         for fu in futs:
